@@ -96,6 +96,20 @@ theorem C15.nearest_paths_agree (axes : List (Axis K))
       rw [C15.peraxis_nearest_axis a h.1 h.2, ih (fun b hb => hg b (by simp [hb]))]
       simp [nearestInterp]
 
+/-- The dispatch inside `per_axis_interpolator` (all axes nearest ↦ `_NearestInterpolator`,
+introduced by the repair of finding C15-F8) does not change any value: it agrees with the
+generic per-axis evaluator wherever that one is defined, at every point, in every dimension. -/
+theorem C15.peraxis_dispatch_agrees (axes : List (Axis K)) (hg : ∀ a ∈ axes, a.Good)
+    (v : List Nat → V) (p : List K) :
+    perAxisInterpolator axes v p = perAxisInterp axes v p := by
+  unfold perAxisInterpolator
+  split
+  · rename_i h
+    refine (C15.nearest_paths_agree axes (fun a ha => ⟨hg a ha, ?_⟩) v p).symm
+    have := List.all_eq_true.mp h a ha
+    simpa using this
+  · rfl
+
 /-- Linear axis, point in the hull: the weights are the barycentric coordinates of the point
 in its cell — they sum to one, lie in `[0, 1]`, refer to two adjacent nodes enclosing the
 point and reproduce the point itself. -/
